@@ -1,1 +1,36 @@
-fn main() { eprintln!("not built yet"); std::process::exit(2); }
+//! dv-funcs: function-style properties. TLC enumerates the input space of a reference semantics
+//! (spec/Config.tla, ClientCodec.tla, ReadRoute.tla, MergeAE.tla) and computes the expected
+//! outcome; every enumerated case is executed here against the real d-engine code and the
+//! observation is written as one ndjson record. One sub-command per property.
+mod codec;
+mod config;
+mod engine;
+mod merge;
+mod mget;
+
+pub fn arg(
+    args: &[String],
+    name: &str,
+) -> Option<String> {
+    args.iter().position(|a| a == name).and_then(|i| args.get(i + 1)).cloned()
+}
+
+fn main() {
+    let args: Vec<String> = std::env::args().collect();
+    let mode = args.get(1).cloned().unwrap_or_default();
+    let cases = arg(&args, "--cases").unwrap_or_default();
+    let out = arg(&args, "--out").unwrap_or_else(|| "out.ndjson".into());
+    let scratch = arg(&args, "--scratch").unwrap_or_else(|| "/verif/.work/funcs-scratch".into());
+    let _ = std::fs::create_dir_all(&scratch);
+    let rc = match mode.as_str() {
+        "config" => config::run(&cases, &out, &scratch),
+        "codec" => codec::run(&cases, &out, &scratch),
+        "merge" => merge::run(&cases, &out, &scratch),
+        "mget" => mget::run(&cases, &out, &scratch, &arg(&args, "--sm").unwrap_or_else(|| "file".into())),
+        _ => {
+            eprintln!("usage: dv-funcs config|codec|mget|merge|route --cases F --out F --scratch D");
+            2
+        }
+    };
+    std::process::exit(rc);
+}
